@@ -14,7 +14,7 @@ RULE = ("Hypothesis draws RunSpecs (all optimizers, min and max tasks, >= 3 cycl
         "agent_trend / agent_position return the cost / a position of the idx-th agent of evolution[i] ranked in "
         "the task's direction (ties: any agent with that cost), best_agent_trend[-1] == best_solution.cost, lengths "
         "== len(iters). Non-trivial = run in which some agent object survives >= 2 generations (an in-place update "
-        "could rewrite the past) or a max task; distinct = SHA-256 of the case.")
+        "could rewrite the past) or a max task; distinct = SHA-256 of the case. About 15 % of the cases make the judged run on an optimizer instance that has already been used for an optimize() call on another task (reused instance).")
 ASSUMPTIONS = ["algorithm-private extra fields of agents (trials, hunger, velocity..) are not part of the result "
                "contract and are not compared", "negative ranks are not a documented use and are not generated",
                "runs that raise are C06's business"]
